@@ -30,6 +30,8 @@ func symbol(s string) string {
 		return "あ"
 	case "CR":
 		return "\r"
+	case "UFFFD":
+		return "\uFFFD" // the replacement character itself, correctly encoded
 	}
 	return s
 }
